@@ -11,6 +11,7 @@ import numpy as np
 
 from vp import probe, specmodel as sm
 from vp import defaults
+from vp import reuse
 
 RULE = ('all 7^3 ordered triples of wavelength unit names (4 units + 3 aliases) and all 3^3 flux-unit triples, each on fresh '
         'random wavelength/flux vectors (enumerated completely, sharded); random spectra for Spectrum.to; temperatures '
@@ -40,6 +41,7 @@ NAMES = ['m', 'meter', 'um', 'micron', 'nm', 'nanometer', 'angstrom']
 
 def workload(ctx, lentil):
     defaults.run(ctx, lentil, 'C14', 'wave:compose')
+    reuse.run(ctx, lentil, 'C14', 'wave:compose')
     rng = ctx.rng
     R = lentil.radiometry
     k = 0
